@@ -29,3 +29,4 @@ def run(ctx, rep):
     optargs.rule_argument_not_overridden(ctx, rep, "C18-R10", lambda f: _in_family(f.qual), "the number parsers and formatters", floor=2)
     operators.rule_log_poles(ctx, rep, "C18-R11")
     builtins.rule_signed_number_text(ctx, rep, "C18-R12")
+    builtins.rule_same_function_two_names(ctx, rep, "C18-R13")
